@@ -7,6 +7,7 @@ import (
 )
 
 func (in *Interp) allocEvent(size *Term) {
+	in.specAbortIf("alloc event in region")
 	in.Effects = append(in.Effects, "alloc:"+size.String())
 	if in.AllocEventIsPanic {
 		panic(&goPanic{Val: IfaceV{T: types.Typ[types.String], V: StrV{S: "huge allocation"}},
@@ -15,6 +16,7 @@ func (in *Interp) allocEvent(size *Term) {
 }
 
 func (in *Interp) effect(s string) {
+	in.specAbortIf("effect in region")
 	in.Effects = append(in.Effects, s)
 }
 
@@ -65,7 +67,7 @@ func registerIntrinsics(in *Interp) {
 		small := Or(FPIsInf(y), FPCmp(OpFPLt, ax, ay))
 		sameSign := Eq(Extract(in.fpToBits(res), 63, 63), Extract(in.fpToBits(x), 63, 63))
 		general := AndN(Not(FPIsNaN(res)), FPCmp(OpFPLt, FPAbs(res), ay), sameSign)
-		in.assume(Ite(nan, FPIsNaN(res), Ite(small, Eq(res, x), general)))
+		in.define(Ite(nan, FPIsNaN(res), Ite(small, Eq(res, x), general)))
 		return res
 	}
 	for _, n := range []string{"Pow", "Atan2", "Hypot"} {
